@@ -208,7 +208,7 @@ def dupRunningScript : List Action :=
 /-- **C23.agree_counterexample** (ids not fresh): a reachable quiescent state in which the reported
     state (Queued) disagrees with the task queue (topic active, not pending). -/
 theorem agree_counterexample_dup :
-    ∃ s, Reachable {} s ∧ quiescent s = true ∧ agrees s = false :=
+    ∃ s, Reachable {} s ∧ quiescent s = true ∧ agreesStates s = false :=
   ⟨run (init {}) dupRunningScript, reachable_run Reachable.init _, by decide, by decide⟩
 
 -- ------------------------------------------------------------------ release amounts
